@@ -33,7 +33,7 @@ def flit(v, T):
         return "achar(%d)" % v
     if t["k"] == "i":
         if not t["signed"]:
-            v = ir.wrap_int(v, {32: "int", 64: "long"}[t["bits"]])      # same bits, Fortran has no unsigned
+            v = ir.wrap_int(v, {16: "short", 32: "int", 64: "long"}[t["bits"]])      # same bits, Fortran has no unsigned
         k = fkind(T)
         lo = -(1 << (t["bits"] - 1))
         if v == lo:
@@ -292,7 +292,7 @@ def conv_out(call, p, want, lib=None, model_out=None):
 
     def uw(vals_):
         # Fortran has no unsigned integers: same bits, read as signed
-        return [str(ir.wrap_int(int(x), {32: "int", 64: "long"}[ir.TYPES[Tp]["bits"]])) for x in vals_] if uns else vals_
+        return [str(ir.wrap_int(int(x), {16: "short", 32: "int", 64: "long"}[ir.TYPES[Tp]["bits"]])) for x in vals_] if uns else vals_
     if kd == "vec_out":
         L = fl[p["name"]]
         tag, n, vals = want.split(":")
@@ -312,8 +312,8 @@ def conv_out(call, p, want, lib=None, model_out=None):
     T = p.get("T")
     if T in ir.TYPES and ir.TYPES[T]["k"] == "i" and not ir.TYPES[T]["signed"]:
         if want.startswith("i:"):
-            return "i:%d" % ir.wrap_int(int(want[2:]), {32: "int", 64: "long"}[ir.TYPES[T]["bits"]])
+            return "i:%d" % ir.wrap_int(int(want[2:]), {16: "short", 32: "int", 64: "long"}[ir.TYPES[T]["bits"]])
         if want.startswith("ai:"):
             tag, n, vals = want.split(":")
-            return "ai:%s:%s" % (n, ",".join(str(ir.wrap_int(int(x), {32: "int", 64: "long"}[ir.TYPES[T]["bits"]])) for x in vals.split(",") if x != ""))
+            return "ai:%s:%s" % (n, ",".join(str(ir.wrap_int(int(x), {16: "short", 32: "int", 64: "long"}[ir.TYPES[T]["bits"]])) for x in vals.split(",") if x != ""))
     return want
